@@ -508,14 +508,18 @@ func combineHeaders(srcs []*Profile) (*Profile, error) {
 
 		TimeNanos:     timeNanos,
 		DurationNanos: durationNanos,
-		PeriodType:    srcs[0].PeriodType,
 		Period:        period,
 
 		Comments:          comments,
 		DefaultSampleType: defaultSampleType,
 		DocURL:            docURL,
 	}
-	copy(p.SampleType, srcs[0].SampleType)
+	if pt := srcs[0].PeriodType; pt != nil {
+		p.PeriodType = &ValueType{Type: pt.Type, Unit: pt.Unit}
+	}
+	for i, st := range srcs[0].SampleType {
+		p.SampleType[i] = &ValueType{Type: st.Type, Unit: st.Unit}
+	}
 	return p, nil
 }
 
